@@ -138,10 +138,12 @@ def scope_inputs(scope, n1, n2):
         return "type Query { a: Int b: Int }\n", f"query {n1} {{ a }}\nquery {n2} {{ b }}\n"
     if scope == "enum_values":
         return f"type Query {{ e: E }}\nenum E {{ {n1} {n2} }}\n", "query P { e }\n"
+    if scope == "enum_value_as_default":
+        return f"type Query {{ f(i: I): E }}\nenum E {{ {n1} {n2} }}\ninput I {{ e: E = {n1} es: [E!] = [{n2}, {n1}] }}\n", "query P($i: I) { f(i: $i) }\n"
     raise ValueError(scope)
 
 
-SCOPES = ["response_keys", "result_fields", "input_fields", "variables", "operations", "enum_values"]
+SCOPES = ["response_keys", "result_fields", "input_fields", "variables", "operations", "enum_values", "enum_value_as_default"]
 
 
 def scope_case(case):
@@ -177,7 +179,7 @@ def scope_case(case):
             captured.append(json.loads(request.content))
             body = captured[-1]
             data = {"response_keys": {"user": {n1: "i", n2: "n"}}, "result_fields": {"user": {n1: "i", n2: "n"}}, "input_fields": {"f": 1},
-                    "variables": {"f": 1}, "operations": {"a": 1, "b": 2}, "enum_values": {"e": n2}}[scope]
+                    "variables": {"f": 1}, "operations": {"a": 1, "b": 2}, "enum_values": {"e": n2}, "enum_value_as_default": {"f": n1}}[scope]
             return httpx.Response(200, json={"data": data})
         c = clients.make_client(mod.Client, True, handler)
         methods = [m for m in vars(mod.Client) if not m.startswith("__")]
@@ -235,6 +237,11 @@ def scope_case(case):
                         names_sent.add(captured[-1].get("operationName"))
                 if names_sent != {n1, n2}:
                     P.append(("names_merged", f"operationNames sent by the client's methods: {sorted(map(str, names_sent))}"))
+            elif scope == "enum_value_as_default":
+                inst = mod.I()
+                got = (getattr(inst.e, "value", inst.e), [getattr(x, "value", x) for x in inst.es])
+                if got != (n1, [n2, n1]):
+                    P.append(("enum_default_lost", f"I() reads back {got}, schema defaults ({n1}, [{n2}, {n1}])"))
             elif scope == "enum_values":
                 E = mod.E
                 vals = sorted(m.value for m in E)
@@ -282,7 +289,7 @@ def main(tier):
     cases = list(pairs)
     for n in cat:
         for scope in SCOPES:
-            if scope == "enum_values" and n in ("true", "false", "null"):
+            if scope in ("enum_values", "enum_value_as_default") and n in ("true", "false", "null"):
                 continue
             for snake in ((True, False) if scope != "operations" else (True,)):
                 cases.append((scope, n, "zzOther", snake))
